@@ -31,6 +31,14 @@
 static int rank, np;
 static FILE *out;
 static const char *cur_line = "";   /* the op being executed; printed together with its result */
+static char markfile[1200];
+static int opno = 0;
+/* progress marker of this rank (one small file per rank, overwritten): tells where each rank was if the run hangs */
+static void mark(const char *phase)
+{
+    FILE *f = fopen(markfile, "w");
+    if( f ) { fprintf(f, "rank %d: request %d %s\n", rank, opno, phase); fclose(f); }
+}
 
 typedef struct { int m, n; double *ptr; int *w; } tile_t;
 typedef struct {
@@ -49,11 +57,13 @@ typedef struct {
 static mat_t Y, T;
 static volatile int tracking = 0;
 static int oob_write = 0, oob_read = 0;
+static int n_direct = 0, n_pack = 0, n_unpack = 0;   /* memcpy calls: source tile -> target tile, source tile -> buffer, buffer -> target tile */
 
 /* every memcpy of the redistribute task bodies comes here */
 void *pv_memcpy(void *dst, const void *src, size_t n)
 {
     if( tracking && n > 0 ) {
+        int to_t = 0, from_y = 0;
         size_t tsz = (size_t)T.mb * T.nb, ysz = (size_t)Y.mb * Y.nb;
         for( int i = 0; i < T.ntiles; i++ ) {
             double *p = T.tiles[i].ptr;
@@ -61,6 +71,7 @@ void *pv_memcpy(void *dst, const void *src, size_t n)
                 size_t off = (double*)dst - p, cnt = n / sizeof(double);
                 if( off + cnt > tsz || (n % sizeof(double)) ) { __atomic_store_n(&oob_write, 1, __ATOMIC_RELAXED); cnt = tsz - off; }
                 for( size_t k = 0; k < cnt; k++ ) __atomic_fetch_add(&T.tiles[i].w[off + k], 1, __ATOMIC_RELAXED);
+                to_t = 1;
                 break;
             }
         }
@@ -69,9 +80,13 @@ void *pv_memcpy(void *dst, const void *src, size_t n)
             if( (const double*)src >= p && (const double*)src < p + ysz ) {
                 size_t off = (const double*)src - p, cnt = n / sizeof(double);
                 if( off + cnt > ysz ) __atomic_store_n(&oob_read, 1, __ATOMIC_RELAXED);
+                from_y = 1;
                 break;
             }
         }
+        if( to_t && from_y ) __atomic_fetch_add(&n_direct, 1, __ATOMIC_RELAXED);
+        else if( from_y ) __atomic_fetch_add(&n_pack, 1, __ATOMIC_RELAXED);
+        else if( to_t ) __atomic_fetch_add(&n_unpack, 1, __ATOMIC_RELAXED);
     }
     return memcpy(dst, src, n);
 }
@@ -260,14 +275,17 @@ static void run_request(parsec_context_t *ctx, char **w)
     int sr = v[15], sc = v[16], diY = v[17], djY = v[18], diT = v[19], djT = v[20];
     if( !ok || v[0] != np || !spec_ok(&Y) || !spec_ok(&T) ) { if( out ) fprintf(out, "%s => bad-op\n", cur_line); return; }
 
+    mark("creating the matrices");
     mat_create(&Y, "dcY", 1);
     mat_create(&T, "dcT", 0);
 
     obs_path = '-'; obs_nc = 0; obs_nt = 0;
-    oob_write = oob_read = 0; bad_sentinel = 0;
+    oob_write = oob_read = 0; bad_sentinel = 0; n_direct = n_pack = n_unpack = 0;
     tracking = 1;
+    mark("inside parsec_redistribute");
     int rc = parsec_redistribute(ctx, Y.desc, T.desc, sr, sc, diY, djY, diT, djT);
     tracking = 0;
+    mark("gathering the target (MPI_Reduce)");
 
     /* gather */
     GR = T.desc->lmt * T.mb; GC = T.desc->lnt * T.nb;
@@ -292,8 +310,8 @@ static void run_request(parsec_context_t *ctx, char **w)
                     flags[0] = 1;
     flags[3] = (rc == PARSEC_SUCCESS) ? 0 : (rc == PARSEC_ERR_NOT_SUPPORTED ? 1 : 2);
     MPI_Reduce(flags, gflags, 4, MPI_INT, MPI_MAX, 0, MPI_COMM_WORLD);
-    int remote = 0, gremote = 0;
-    (void)remote;
+    int cnts[3] = {n_direct, n_pack, n_unpack}, gcnts[3] = {0, 0, 0};
+    MPI_Reduce(cnts, gcnts, 3, MPI_INT, MPI_SUM, 0, MPI_COMM_WORLD);
     if( 0 == rank ) {
         char *sT = render(tag_T), *sW = render(tag_W);
         if( gflags[3] == 0 ) fprintf(out, "%s => ok path=%c nc=%d nt=%d T=%s W=%s\n", cur_line, obs_path, obs_nc, obs_nt, sT, sW);
@@ -304,22 +322,25 @@ static void run_request(parsec_context_t *ctx, char **w)
         if( gflags[2] ) fprintf(out, "!viol a copy read past the end of the source tile it started in\n");
         if( bad_sentinel ) fprintf(out, "!viol a target element outside every copy changed value (sentinel displaced)\n");
         fprintf(out, "#stat requests 1\n#stat path_%c 1\n#stat target_elems %zu\n", obs_path == '-' ? 'x' : obs_path, tot);
+        fprintf(out, "#stat memcpy_source_tile_to_target_tile %d\n#stat memcpy_pack_at_sender %d\n#stat memcpy_unpack_at_receiver %d\n", gcnts[0], gcnts[1], gcnts[2]);
         free(sT); free(sW);
     }
-    (void)gremote;
     free(lT); free(lW); free(gT); free(gW); gT = NULL; gW = NULL;
+    mark("destroying the matrices");
     mat_destroy(&T);
     mat_destroy(&Y);
+    mark("done");
 }
 
 int main(int argc, char **argv)
 {
     int provided;
     if( argc < 3 ) { fprintf(stderr, "usage: C21 script transcript [cores]\n"); return 2; }
-    MPI_Init_thread(&argc, &argv, MPI_THREAD_SERIALIZED, &provided);
+    MPI_Init_thread(&argc, &argv, MPI_THREAD_MULTIPLE, &provided);
     MPI_Comm_size(MPI_COMM_WORLD, &np);
     MPI_Comm_rank(MPI_COMM_WORLD, &rank);
     int cores = argc > 3 ? atoi(argv[3]) : 2;
+    snprintf(markfile, sizeof(markfile), "%s.rank%d", argv[2], rank);
     int pargc = 0; char **pargv = NULL;
     parsec_context_t *ctx = parsec_init(cores, &pargc, &pargv);
     if( NULL == ctx ) { fprintf(stderr, "parsec_init failed\n"); MPI_Abort(MPI_COMM_WORLD, 2); }
@@ -334,6 +355,7 @@ int main(int argc, char **argv)
         if( 0 == nw ) continue;
         line[strcspn(line, "\r\n")] = 0;
         cur_line = line;
+        opno++;
         if( !strcmp(w[0], "case") && nw == 2 ) { if( out ) fprintf(out, "%s => ok\n", line); }
         else if( !strcmp(w[0], "redist") && nw == 24 ) run_request(ctx, w);
         else if( out ) fprintf(out, "%s => bad-op\n", line);
